@@ -32,3 +32,15 @@ package filters
 //@   requires [w] w != nil && w.throughputMonitor != nil
 //@   modifies *
 //@   ensures [relayed_unchanged] rwcount == old(rwcount) + 1 && rwlast === b && result == rwn && result1 == rwerr
+
+// ---- C10: the cluster a request is handed to is the one registered under its host name ----
+//@ const theInfo = extraInfoOf(reqCtxOf(param("req")))
+//@ const hostKey = toLower(theInfo.Hostname)
+
+//@ func WithUpstreamInfo$1 props C10
+//@   requires [wf] req != nil && handler != nil && clusterManager != nil
+//@   modifies *
+//@   ensures [by_host] old(theInfo) != nil && !isIP(old(theInfo.Hostname)) && nextcalls != old(nextcalls) ==> old(theInfo).UpstreamCluster != nil && old(theInfo).UpstreamCluster == old(reg[clusterManager][hostKey]) && old(theInfo).IsProxyRequest
+//@   ensures [unknown_host_refused] old(theInfo) != nil && !isIP(old(theInfo.Hostname)) && old(reg[clusterManager][hostKey]) == nil ==> nextcalls == old(nextcalls) && terminated == old(terminated) + 1 && lastterm == 503
+//@   ensures [info_travels] nextcalls != old(nextcalls) ==> nextcalls == old(nextcalls) + 1 && (old(theInfo) != nil ==> extraInfoOf(reqCtxOf(nextreq)) == old(theInfo) && old(theInfo).Hostname == old(theInfo.Hostname))
+//@   ensures [ip_untouched] old(theInfo) != nil && isIP(old(theInfo.Hostname)) ==> old(theInfo).UpstreamCluster == old(theInfo.UpstreamCluster) && nextcalls == old(nextcalls) + 1
